@@ -406,51 +406,39 @@ def g7_view_requires_filter(prog):
     unconditionally (W2 presence-assumed), so an archetype lacking the component must never get here."""
     r = Result()
     VIEWERS = ('view', 'par_view', 'view_row_unchecked', 'view_row_maybe_uninit_unchecked')
+
+    def is_viewer(c):
+        return c['name'] in VIEWERS and c['path'].startswith('archetype::Archetype::<R>::')
+    tops = {}
     for f in prog.fns.values():
-        body = f.body
-        for b, t in body.calls(lambda c: c['name'] in VIEWERS and c['path'].startswith('archetype::Archetype::<R>::')):
-            g = [a for a in t['f']['args'] if a.get('k') != 'region']
-            views = g[1] if len(g) > 1 else None
-            key = '%s -> Archetype::%s' % (f.path.split('<')[0][:70] + f.name if f.kind != 'Closure' else owner_fn(prog, f).name + '::closure', t['f']['name'])
-            r.inst('%s [%s]' % (key, ty_str(views)))
-            # filter calls in this body (or, for closures, in the parent chain)
-            ok = False
-            for fb, ft in body.calls(lambda c: c['name'] == 'filter'):
-                fg = [a for a in ft['f']['args'] if a.get('k') != 'region']
-                mentions = any(ty_mentions(a, lambda n: strip_regions(n) == strip_regions(views)) for a in fg)
-                if not mentions:
-                    continue
-                cl = ft['dest']['l']
-                der = derived(body, {cl})
-                for sb in range(body.n):
-                    st = body.term(sb)
-                    if st['k'] == 'switch' and op_local(st['discr']) in der and 0 in st['values']:
-                        neg = is_negated(body, op_local(st['discr']), cl)
-                        good = st['targets'][st['values'].index(0)] if neg else st['otherwise']
-                        if body.edge_dominates((sb, good), b):
-                            ok = True
-            if not ok:
-                # idiom: the archetype comes out of Iterator::find / filter whose predicate closure IS the
-                # filter call for the same views
-                recv = op_local(t['args'][0])
-                for fb, ft in body.calls(lambda c: c['name'] in ('find', 'filter', 'find_map', 'skip_while', 'take_while') and c.get('trait', '').endswith('Iterator')):
-                    if recv is None or recv not in derived(body, {ft['dest']['l']}):
-                        continue
-                    from .rules_sched import closure_of
-                    cfn, _agg = closure_of(prog, body, ft['args'][1]) if len(ft['args']) > 1 else (None, None)
-                    if cfn is None:
-                        continue
-                    bf, tt = boolfn.bool_table(prog, cfn)
-                    if tt is None:
-                        continue
-                    keys, table = tt
-                    if len(keys) == 1 and bf.atoms[keys[0]].kind == 'call' and bf.atoms[keys[0]].term['f']['name'] == 'filter' and table == {(False,): False, (True,): True}:
-                        fg = [a for a in bf.atoms[keys[0]].term['f']['args'] if a.get('k') != 'region']
-                        if any(ty_mentions(a, lambda n: strip_regions(n) == strip_regions(views)) for a in fg):
-                            ok = True
-            if not ok:
-                r.viol('G7', key + '/unfiltered-view', f.loc(t['ln']),
-                       'views are materialised over an archetype without a dominating filter check for those views: a non-optional view would read a column that does not belong to its component')
+        if any(True for _ in f.body.calls(is_viewer)):
+            top = owner_fn(prog, f) if f.kind == 'Closure' else f
+            tops[top.dp] = top
+    for top in tops.values():
+        E = pathsem.analyse(prog, top, max_paths=20000)
+        seen = set()
+        if E.truncated:
+            r.viol('G7', '%s/not-analysable' % top.path[:80], top.loc(), 'path enumeration cut off')
+            continue
+        for p in E.paths:
+            for e in p.calls(lambda e: is_viewer({'name': e['name'], 'path': e['path']})):
+                g = [a for a in e['f'].get('args', []) if a.get('k') != 'region']
+                views = g[1] if len(g) > 1 else None
+                fn_ = e['fn']
+                key = '%s -> Archetype::%s' % (top.path.split('<')[0][:70] + top.name if fn_ is top else top.name + '::closure', e['name'])
+                ik = (key, ty_str(views))
+                ok = False
+                for ft in p.calls(lambda c: c['name'] == 'filter' and c['i'] < e['i']):
+                    fg = [a for a in ft['f'].get('args', []) if a.get('k') != 'region']
+                    if any(ty_mentions(a, lambda n: strip_regions(n) == strip_regions(views)) for a in fg) and p.lookup(ft['ret']) is True:
+                        ok = True
+                if ik not in seen:
+                    seen.add(ik)
+                    r.inst('%s [%s]' % ik)
+                if not ok and (ik, 'v') not in seen:
+                    seen.add((ik, 'v'))
+                    r.viol('G7', key + '/unfiltered-view', top.loc(e['ln']),
+                           'views are materialised over an archetype without a dominating filter check for those views: a non-optional view would read a column that does not belong to its component')
     return r
 
 
